@@ -607,20 +607,20 @@ class IPPO(MultiAgentRLAlgorithm):
         (states, actions, log_probs, rewards, dones, values, next_state, next_done) = (
             experiences
         )
+        # NOTE: The experiences of the agents sharing this policy are stacked as
+        # (num_steps, num_agents, num_envs) and handled as num_agents * num_envs columns
+        num_agents = len(rewards)
+        num_steps = len(next(iter(rewards.values())))
         log_probs, rewards, dones, values = map(
             vectorize_experiences_by_agent, (log_probs, rewards, dones, values)
         )
-        log_probs = log_probs.squeeze()
-        rewards = rewards.squeeze()
-        dones = dones.squeeze()
-        values = values.squeeze()
         next_state = vectorize_experiences_by_agent(next_state, dim=0)
-        next_done = vectorize_experiences_by_agent(next_done)
+        next_done = vectorize_experiences_by_agent(next_done, dim=0)
 
         # Bootstrapping returns using GAE advantage estimation
         dones = dones.long()
         with torch.no_grad():
-            num_steps = rewards.size(0)
+            log_probs = log_probs.reshape(num_steps, -1)
             rewards = rewards.reshape(num_steps, -1)
             dones = dones.reshape(num_steps, -1)
             values = values.reshape(num_steps, -1)
@@ -651,13 +651,19 @@ class IPPO(MultiAgentRLAlgorithm):
                     + self.gamma * self.gae_lambda * next_non_terminal * last_gae_lambda
                 )
 
-            advantages = advantages.reshape((-1,))
-            values = values.reshape((-1,))
+            # Flatten in the order used for states and actions below, i.e. agent by agent
+            def agent_major(x: torch.Tensor) -> torch.Tensor:
+                return (
+                    x.reshape(num_steps, num_agents, -1).transpose(0, 1).reshape((-1,))
+                )
+
+            advantages = agent_major(advantages)
+            values = agent_major(values)
+            log_probs = agent_major(log_probs)
             returns = advantages + values
 
         states = concatenate_experiences_into_batches(states, obs_space)
         actions = concatenate_experiences_into_batches(actions, action_space)
-        log_probs = log_probs.reshape((-1,))
         experiences = (states, actions, log_probs, advantages, returns, values)
 
         # Move experiences to algo device
